@@ -28,8 +28,14 @@ RECURSIVE PRow(_)
 PRow(n) == IF n = 0 THEN <<1>> ELSE LET p == PRow(n - 1) IN
            TLCEval([i \in 1..(n + 1) |-> (IF i = 1 THEN 0 ELSE p[i - 1]) + (IF i = n + 1 THEN 0 ELSE p[i])])
 PTab == TLCEval([n \in 0..33 |-> PRow(n)])
-Ch(n, k) == IF k < 0 \/ k > n THEN 0 ELSE PTab[n][k + 1]
 Min2(a, b) == IF a < b THEN a ELSE b
+\* beyond the table only the four outermost entries of a row (k or n - k at most 3) are ever needed: the lopsided pools below
+\* put at most three values on one side.  (n (n-1) (n-2) fits a TLC integer up to n = 1290.)
+Ch(n, k) == IF k < 0 \/ k > n THEN 0
+            ELSE IF n <= 33 THEN PTab[n][k + 1]
+            ELSE LET j == Min2(k, n - k) IN
+                 CASE j = 0 -> 1 [] j = 1 -> n [] j = 2 -> (n * (n - 1)) \div 2 [] j = 3 -> (n * (n - 1) * (n - 2)) \div 6
+                   [] OTHER -> Assert(FALSE, <<"Ch beyond the table", n, k>>)
 Abs(a) == IF a < 0 THEN 0 - a ELSE a
 
 \* all allocations of n sample-1 members over the tie vector t, as a sequence
@@ -39,23 +45,25 @@ Allocs(t, n) == IF t = <<>> THEN (IF n = 0 THEN << <<>> >> ELSE <<>>)
                          Over(a) == IF a > Min2(Head(t), n) THEN <<>>
                                     ELSE LET rest == Allocs(Tail(t), n - a)
                                          IN TLCEval([i \in 1..Len(rest) |-> <<a>> \o rest[i]]) \o Over(a + 1)
-                     IN Over(0)
+                         rest0 == SumSeq(Tail(t))
+                     IN Over(IF n > rest0 THEN n - rest0 ELSE 0)      \* the ranks after this one can take at most rest0 members
 \* 2U of an allocation: each sample-1 member at rank k beats the sample-2 members below (2 each) and ties those at k (1 each)
-RECURSIVE TwoUAcc(_,_,_)
-TwoUAcc(t, r, below) == IF t = <<>> THEN 0
-   ELSE Head(r) * (2 * below + (Head(t) - Head(r))) + TwoUAcc(Tail(t), Tail(r), below + Head(t) - Head(r))
-TwoU(t, r) == TwoUAcc(t, r, 0)
-RECURSIVE Mult(_,_)
-Mult(t, r) == IF t = <<>> THEN 1 ELSE Ch(Head(t), Head(r)) * Mult(Tail(t), Tail(r))
+\* (by index: Head/Tail recursion copies the rest of the sequence at every step)
+RECURSIVE TwoUAcc(_,_,_,_)
+TwoUAcc(t, r, k, below) == IF k > Len(t) THEN 0
+   ELSE r[k] * (2 * below + (t[k] - r[k])) + TwoUAcc(t, r, k + 1, below + t[k] - r[k])
+TwoU(t, r) == TwoUAcc(t, r, 1, 0)
+RECURSIVE MultAcc(_,_,_)
+MultAcc(t, r, k) == IF k > Len(t) THEN 1 ELSE Ch(t[k], r[k]) * MultAcc(t, r, k + 1)
+Mult(t, r) == MultAcc(t, r, 1)
 
 \* count vector indexed 1..(2 n1 n2 + 1): Cnt[u+1] = number of subsets with 2U = u  (allocation generating function)
-CntAlloc(t, n) ==
-  LET N == SumSeq(t)  top == 2 * n * (N - n)
-      A == Allocs(t, n)
-      RECURSIVE Acc(_,_)
-      Acc(i, c) == IF i > Len(A) THEN c
-                   ELSE LET u == TwoU(t, A[i]) IN Acc(i + 1, [c EXCEPT ![u + 1] = @ + Mult(t, A[i])])
-  IN Acc(1, [u \in 1..(top + 1) |-> 0])
+\* (the list of allocations is evaluated once and handed down as a value: a LET definition referenced from a recursive
+\* operator is re-evaluated on every reference)
+RECURSIVE CntAcc(_,_,_,_)
+CntAcc(t, A, i, c) == IF i > Len(A) THEN c
+                      ELSE LET u == TwoU(t, A[i]) IN CntAcc(t, A, i + 1, [c EXCEPT ![u + 1] = @ + Mult(t, A[i])])
+CntAlloc(t, n) == LET top == 2 * n * (SumSeq(t) - n) IN CntAcc(t, TLCEval(Allocs(t, n)), 1, [u \in 1..(top + 1) |-> 0])
 
 \* ---- literal definitions, for cross-checking on small pools ----
 \* explicit pool: element <<k, i>> is the i-th copy of value k
@@ -101,7 +109,11 @@ VarDen(t) == LET N == SumSeq(t) IN 12 * N * (N - 1)
 Init == T \in StartT /\ n1 = -1 /\ \E c \in Configs : exactLimit = c[1] /\ tiesLimit = c[2]
 \* the pool is built one rank at a time, then the split is chosen; SetLimits may happen at any time
 AddRank(t) == n1 = -1 /\ SumSeq(T) + t <= MaxN /\ T' = Append(T, t) /\ UNCHANGED <<n1, exactLimit, tiesLimit>>
-ChooseSplit(k) == n1 = -1 /\ Len(T) >= 1 /\ n1' = k /\ UNCHANGED <<T, exactLimit, tiesLimit>>
+\* pools of more than 33 values are "lopsided": one sample has at most three values (the other up to 257), which keeps the
+\* allocation generating function small while the pool, its prefix sums and its tie groups walk far past every small table
+Lop(t) == SumSeq(t) > 33
+MaxSide(t) == IF Len(t) > 30 THEN 2 ELSE 3      \* pools of many ranks: at most two values on one side
+ChooseSplit(k) == n1 = -1 /\ Len(T) >= 1 /\ (Lop(T) => (k <= MaxSide(T) \/ k >= SumSeq(T) - MaxSide(T))) /\ n1' = k /\ UNCHANGED <<T, exactLimit, tiesLimit>>
 SetLimits(c) == n1 = -1 /\ <<exactLimit, tiesLimit>> # c /\ exactLimit' = c[1] /\ tiesLimit' = c[2] /\ UNCHANGED <<T, n1>>
 Next == \/ \E t \in 1..MaxN : AddRank(t)
         \/ \E k \in 0..SumSeq(T) : ChooseSplit(k)
@@ -123,7 +135,7 @@ Laws == (n1 > 0 /\ n1 < SumSeq(T) /\ Len(T) >= 2) =>
            TwoU(T, r) = TwoUPairs(UNION {{<<k, i>> : i \in 1..r[k]} : k \in 1..Len(T)},
                                   UNION {{<<k, i>> : i \in (r[k] + 1)..T[k]} : k \in 1..Len(T)})
      /\ AllOnes(T) => \A u \in 0..(n1 * n2) : c[2 * u + 1] = CMW(n1, n2, u)
-     /\ VarNum(T, n1) > 0
+     /\ Lop(T) \/ VarNum(T, n1) > 0
 
 \* ---- case emission ----
 AllocRecs(t, n) == LET A == Allocs(t, n) IN [i \in 1..Len(A) |-> [r |-> A[i], twoU |-> TwoU(t, A[i])]]
@@ -134,7 +146,7 @@ Emit == n1 >= 0 =>
   ELSE LET c == CntAlloc(T, n1)  den == Ch(N, n1) IN
        PrintT(ToJson([T |-> T, n1 |-> n1, n2 |-> N - n1, e |-> exactLimit, t |-> tiesLimit, method |-> m,
                       den |-> den, cnt |-> c, le |-> LEvec(c), ge |-> GEvec(c), pd |-> PDvec(c, den),
-                      kw |-> KnownWrongDiffers(c), varn |-> VarNum(T, n1), vard |-> VarDen(T),
+                      kw |-> KnownWrongDiffers(c), varn |-> (IF Lop(T) THEN 0 ELSE VarNum(T, n1)), vard |-> (IF Lop(T) THEN 1 ELSE VarDen(T)),
                       al |-> AllocRecs(T, n1)]))
 ConfigsDefault == {<<50, 25>>}
 StartEmpty == {<<>>}
@@ -144,6 +156,12 @@ StartEmpty == {<<>>}
 MidPoolsQuick == {<<5, 5, 5, 5>>, <<10, 11>>, <<1, 20, 2>>, <<12, 13>>, <<6, 7, 12>>, <<9, 1, 1, 15>>, <<16, 16>>, <<22, 1>>, <<1, 23, 2>>, <<24, 3>>, <<2, 21>>, <<25, 1, 1>>}
 MidPoolsThorough == MidPoolsQuick \cup {<<3, 4, 5, 6, 7>>, <<7, 7, 8>>, <<6, 6, 6, 6>>, <<13, 14>>, <<10, 10, 10>>, <<2, 19>>, <<21, 1>>, <<1, 1, 22>>, <<8, 8, 8, 8>>,
                                         <<4, 4, 4, 4, 4, 4>>, <<11, 1, 11>>, <<2, 3, 2, 3, 2, 3, 2, 3, 2>>, <<15, 2, 15>>}
+\* lopsided pools (exact method only, hence ConfigsWide): (1) a tie group of EVERY size 26..260 next to a pair, so that every
+\* group size and every pool size up to 262 occurs; (2) many ranks above the first 20 values; (3) three large groups.
+\* (TLC's cost grows steeply with the number of ranks, hence few pools of many ranks.)
+LopPoolsQuick == {<<t, 2>> : t \in 26..260} \cup
+                 {<<3, 6, 1, 3, 5, 4, 2, 2, 5, 1, 4, 2, 1, 1>>, <<7, 7, 7, 7, 7, 7>>, <<100, 70, 30>>, <<1, 1, 30, 1, 1, 1, 40, 2, 2>>}
+LopPoolsThorough == LopPoolsQuick \cup {<<2, t>> : t \in 32..300} \cup {<<t, 1, 2>> : t \in 30..200} \cup {[i \in 1..k |-> 3] : k \in 12..16} \cup {[i \in 1..20 |-> 2]}
 ConfigsWide == {<<1000, 1000>>}
 ConfigsFour == {<<50, 25>>, <<0, 0>>, <<3, 2>>, <<1000, 1000>>}
 \* the two limits are independent settings: also the ties limit above the no-ties limit
